@@ -41,7 +41,7 @@ func ruleHelperShape(c *Ctx, r *Report, clause string, hs helperShape) {
 	allInstrs(fi.SSA, true, func(_ *ssa.Function, _ *ssa.BasicBlock, _ int, ins ssa.Instruction) {
 		switch x := ins.(type) {
 		case ssa.CallInstruction:
-			if nm := calleeName(x); !allowed[nm] && nm != "builtin.len" && !strings.HasPrefix(nm, "infrastructure/logger.") {
+			if nm := calleeName(x); !allowed[nm] && nm != "builtin.len" && !strings.HasPrefix(nm, "infrastructure/logger.") && !exactSearchCall(nm) {
 				viol = fmt.Sprintf("%s: %s now consults %s; the rules that rely on it assume: %s", w.pos(x.Pos()), hs.Fn, nm, hs.Why)
 			}
 		case *ssa.TypeAssert:
@@ -106,4 +106,14 @@ func ruleHelperShape(c *Ctx, r *Report, clause string, hs helperShape) {
 		viol = fmt.Sprintf("%s no longer depends on %v; the rules that rely on it assume: %s", hs.Fn, missing, hs.Why)
 	}
 	r.add(clause, "helper-shape", hs.Fn, hs.Why, []string{hs.Fn}, []string{w.pos(fi.Decl.Pos())}, viol)
+}
+
+// exactSearchCall: library spellings of "some element equals / satisfies" - the loop with `==`
+// (or with the predicate, whose body is analysed as part of the function) written as a call.
+func exactSearchCall(nm string) bool {
+	switch nm {
+	case "slices.Contains", "slices.Index", "slices.ContainsFunc", "slices.IndexFunc":
+		return true
+	}
+	return false
 }
